@@ -340,7 +340,7 @@ func (v *fnVC) store(addr ssa.Value, val *T, st *State, pos token.Pos) {
 			if ai.array {
 				ref, idx = ai.base.S, ai.idx.S
 			} else {
-				ref, idx = sapp("sl_arr", ai.base.S), sapp("bvadd", sapp("sl_off", ai.base.S), ai.idx.S)
+				ref, idx = sapp("sl_arr", ai.base.S), sapp("sidx", sapp("sl_off", ai.base.S), ai.idx.S)
 			}
 			v.frameCheck("elems", mk(ref, sRef), pos, st)
 			inner := sapp("store", sapp("select", h.S, ref), idx, val.S)
